@@ -32,7 +32,7 @@ TRUST_COMMON = [
 # not_decided (clauses of the property out of reach of this family), technique.
 _ALL = {
     "C01": dict(
-        want=["T1", "T3", "D1", "D2", "D6", "D6b", "M1", "M2", "P2", "P3", "K1@reduce", "K4@reduce", "K2", "M6", "M8", "M5", "P26", "P26b", "P2c"],
+        want=["T1", "T3", "D1", "D2", "D6", "D6b", "M1", "M2", "P2", "P3", "K1@reduce", "K4@reduce", "K2", "M6", "M8", "M5", "P26", "P26b", "P2c", "K4c", "D9c"],
         explanation=("Static analysis of /repo's source. Decides: every row reducer (ScalarFuncs) normalised to a decision "
                      "table over NULL/NZ/ORD atoms equals the hand-written specification of the operation it is dispatched as "
                      "(size, count, sum, mean=sum/count, min, max, first, last); op->kernel->reducer dispatch by constant "
@@ -41,27 +41,30 @@ _ALL = {
                      "in the reduction loop."
                      ' Also: merges of partial results receive and skip by counts (M1, M2, D2); pointer lookups and slice-start normalisation on chunked keys (M5, M6); a key already cut by a slice is never paired with the raw mask (M8); the null code survives every re-mapping (K2); the per-group count array of the reduction loop is 64 bit (K4).'
                      ' Means by true division (P26).'
-                     ' mean_from_sum_count operands are pandas objects (P26b); per-column counts (P2c).'),
+                     ' mean_from_sum_count operands are pandas objects (P26b); per-column counts (P2c).'
+                     ' Typed dictionaries for combined codes are 64-bit (K4c); positional masks on chunked keys go through the whole key (D9c).'),
         not_decided=["that _group_by_reduce visits every selected row exactly once beyond K1/K6 (loop-bound arithmetic)",
                      "label-set equality with pandas; polars/arrow conversions (third party)"],
         technique="GCNF decision tables vs spec tables; constant-propagated dispatch; fact-walker dominance; path rules",
     ),
     "C02": dict(
-        want=["K1@factorize", "K2", "K6@factorize", "F1", "P7", "K4b", "P7b", "F1b", "H2", "P25", "S3b", "S2"],
+        want=["K1@factorize", "K2", "K6@factorize", "F1", "P7", "K4b", "P7b", "F1b", "H2", "P25", "S3b", "S2", "Q1", "S7", "K4c"],
         explanation=("Decides the structural part of faithful factorization: the null code -1 is produced for a null in ANY key "
                      "position and preserved by every code re-mapping (K2); every factorization route tests the key for null "
                      "before an ordering comparison decides its code or delegates to a library call documented to emit the "
                      "sentinel (F1); pointer tables are built against the final label index (P7); the counting sort and code "
                      "combination guard the null code (K1) and advance their row counter unconditionally (K6)."
                      ' Also: identifier arrays never take their width from an input and counter tables handed to kernels are wide (K4b); the chunk-wise label union keeps first-appearance order and every pointer table is a get_indexer lookup (P7b); RangeIndex offsets are divided by the step unless it is exactly 1 (F1b); the counting sort behind `groups` uses prefix-sum group starts and writes every accepted row once at the position of its group (H2).'
-                     ' The group-sorted layout (groups, apply, ema) is cut with counts permuted into label order (P25); a copy of a grouping takes every attribute, and codes are read as global codes only when they are (S3b, S2).'),
+                     ' The group-sorted layout (groups, apply, ema) is cut with counts permuted into label order (P25); a copy of a grouping takes every attribute, and codes are read as global codes only when they are (S3b, S2).'
+                     ' Polars dtype comparisons (Q1); sorted flag (S7).'
+                     ' 64-bit typed dictionaries (K4c).'),
         not_decided=["that equal keys get equal codes and unequal keys different codes (delegated to pd.factorize / arrow "
                      "dictionary_encode / mixed-radix arithmetic incl. int64 overflow of the cartesian product)",
                      "ascending positions inside groups (counting-sort arithmetic)"],
         technique="null-code preservation (taint + idiom table), fact-walker dominance, route table",
     ),
     "C03": dict(
-        want=["M1", "M2", "M3", "M4", "M5", "D2", "D6b", "D9", "S2", "K2", "M6", "P7b", "P18", "M9", "D9b"],
+        want=["M1", "M2", "M3", "M4", "M5", "D2", "D6b", "D9", "S2", "K2", "M6", "P7b", "P18", "M9", "D9b", "P6", "S7", "S8", "D9c"],
         explanation=("Decides the structural causes of strategy dependence: every merge of partial results receives the "
                      "accumulated count (M1) which is updated after the merge (M2); parallel_map places results by submission "
                      "index (M3); all row-aligned arrays are split by one splitter (M4); pointer lookups are offset by the "
@@ -69,7 +72,9 @@ _ALL = {
                      "dominated by unification (S2)."
                      ' Also: null-code preservation (K2); slice-start normalisation (M6); order-preserving label union and looked-up pointer tables (P7b); per-thread chunks cover the whole array (P18).'
                      " The merge target of a value column takes its dtype from that column's partials (M9)."
-                     ' A positional mask is not converted by an order- and multiplicity-forgetting scatter on the chunked route only (D9b).'),
+                     ' A positional mask is not converted by an order- and multiplicity-forgetting scatter on the chunked route only (D9b).'
+                     ' Merge target with the null slot (P6); sorted flag from evidence on every factorization route (S7); chunkedness decided live (S8).'
+                     ' Positional masks on chunked keys (D9c).'),
         not_decided=["floating-point agreement of sums/means", "the 1,000,000-row thresholds (constants)",
                      "thread schedules are covered structurally by M3, not explored"],
         technique="call-site binding rules, def-use on the completion loop, typestate of the key representation",
@@ -89,14 +94,16 @@ _ALL = {
         technique="GCNF decision tables + algebraic laws on tables; dispatch folding; call-site rules",
     ),
     "C05": dict(
-        want=["K3", "A3m", "M4", "M5", "P3", "D9", "M6", "E3", "M7", "M8", "K7", "D9b"],
+        want=["K3", "A3m", "M4", "M5", "P3", "D9", "M6", "E3", "M7", "M8", "K7", "D9b", "S4", "S6", "D9c", "P5b", "M1", "M2"],
         explanation=("Decides masked-row non-interference: in every kernel with a mask parameter, every store to per-group "
                      "state on a path where the row is not provably selected is an identity (K3, path enumeration with a "
                      "symbolic store); the mask is forwarded at every delegation that has one (A3m); slice masks are applied "
                      "to keys and values together and mask chunks/pointers are offset consistently (M4, M5); the observed "
                      "filter is recomputed under the mask (P3)."
                      ' Also: slice start normalised before the first chunk is located (M6); row-aligned inputs of one kernel call are re-ordered by one indexer (M7); a sliced key is never paired with the raw mask (M8); in the timed EMA the clock moves exactly where the state was decayed (E3).'
-                     ' A mask is bound into the row-wise kernels (which read mask[row] as a truth value) only after it was established to be boolean, on every path (K7); positions are never turned into a boolean row mask by scatter unless established strictly increasing (D9b: repeated / unordered positions).'),
+                     ' A mask is bound into the row-wise kernels (which read mask[row] as a truth value) only after it was established to be boolean, on every path (K7); positions are never turned into a boolean row mask by scatter unless established strictly increasing (D9b: repeated / unordered positions).'
+                     ' No hidden state keyed on a mask object (S4, S6).'
+                     " Positional masks on chunked keys (D9c); selector index space (P5b); merges see the partial's own counts also under a mask (M1, M2)."),
         not_decided=["slice arithmetic with negative/None bounds", "fancy->boolean conversion",
                      "equality with the filtered run as a two-execution relation"],
         technique="path enumeration + symbolic identity detection; parameter-forwarding rule over resolved call sites",
@@ -112,18 +119,19 @@ _ALL = {
         technique="fact-walker dominance over inferred code variables; null-preservation idiom table",
     ),
     "C07": dict(
-        want=["P5", "P6", "S2", "P11", "P2", "D2", "D6b", "K2", "P12", "P5b", "P25", "P27", "P26b", "P2c"],
+        want=["P5", "P6", "S2", "P11", "P2", "D2", "D6b", "K2", "P12", "P5b", "P25", "P27", "P26b", "P2c", "A3c", "A1"],
         explanation=("Decides that transform indexes code-ordered arrays only: the base of every subscript indexed by the row "
                      "codes carries no sort-permutation taint (P5), has a null slot (P6), is indexed after unification (S2), "
                      "and the transform path restores the input's index/container (P11)."
                      ' Also: merge classes (D2), null-code preservation (K2), polars receives datetime results as integers only without null sentinel (P12), label-sorted arrays are filtered only by selectors in label-sorted order (P5b).'
                      ' Group-sorted layout sized by label-ordered counts (P25).'
-                     " Transform results carry the inputs' common index whenever there is one (P27); mean_from_sum_count is handed pandas objects (P26b); every column is divided by its own counts (P2c)."),
+                     " Transform results carry the inputs' common index whenever there is one (P27); mean_from_sum_count is handed pandas objects (P26b); every column is divided by its own counts (P2c)."
+                     " Composites forward transform (A3c); inputs validated as given (A1); merge target built with the reduction's null (D6b)."),
         not_decided=["value equality of broadcast and reduction beyond the index-space argument (the reduction itself is C01)"],
         technique="taint analysis of index spaces; typestate; path rule",
     ),
     "C08": dict(
-        want=["T1", "U1", "U2", "K1@cumulative", "K3@cumulative", "K4@cumulative", "T3", "P1", "P8", "D4", "K7", "P28"],
+        want=["T1", "U1", "U2", "K1@cumulative", "K3@cumulative", "K4@cumulative", "T3", "P1", "P8", "D4", "K7", "P28", "W5"],
         explanation=("Decides the structure of the per-group prefix reduction: reducer tables (T1, skip and non-skip pairs); "
                      "the running value is read from the output at the group's previous accepted row (U1) and per-group "
                      "bookkeeping is updated only on accepted rows (U2); null keys skipped (K1), masked rows do not interfere "
@@ -131,18 +139,20 @@ _ALL = {
                      "(P1); null-key post-fill (P8); cum-op -> reducer dispatch (D4)."
                      ' Also: the cumulative count array is at least 32 bit (K4).'
                      ' The cumulative kernels receive boolean masks only (K7).'
-                     ' Converted cumulative results are not passed through dtype-changing pandas operations (P28).'),
+                     ' Converted cumulative results are not passed through dtype-changing pandas operations (P28).'
+                     ' Null tests in the dtype-generic kernels use is_null (W5).'),
         not_decided=["'last cumulative value equals the reduction' as a value relation (follows by induction, not performed)"],
         technique="GCNF tables; loop-body obligations; path pairing rule",
     ),
     "C09": dict(
-        want=["K1@rolling", "K3@rolling", "K4@rolling", "K5", "D3", "P10", "P11b", "D3b", "W1", "W2", "W3", "W4", "K7"],
+        want=["K1@rolling", "K3@rolling", "K4@rolling", "K5", "D3", "P10", "P11b", "D3b", "W1", "W2", "W3", "W4", "K7", "W5"],
         explanation=("Decides the periphery of the rolling kernels, not the window arithmetic: null/mask guards (K1, K3); "
                      "counter width (K4); dtype provenance on selection paths so min/max/shift return input elements exactly "
                      "(K5); op -> kernel/flag dispatch and flag -> orientation (D3); restoration keeps the input's time unit (P10)."
                      " Also: the comparison with the running extremum is guarded by the group's non-null count (D3b); group-sorted results are indexed by the inputs' common index (P11b)."
                      ' The whole buffer row is rescanned only when the buffer is full (W4).'
-                     ' The rolling / shift / diff kernels receive boolean masks only (K7).'),
+                     ' The rolling / shift / diff kernels receive boolean masks only (K7).'
+                     ' Null tests in the dtype-generic kernels use is_null (W5).'),
         not_decided=["circular-buffer arithmetic (eviction, wrap, recomputation of the extremum, min_periods) — loop "
                      "invariants over runtime quantities", "the group-sorted layout"],
         technique="fact walker, path enumeration, dtype-provenance classification, dispatch folding",
@@ -161,14 +171,15 @@ _ALL = {
         technique="fact walker; expression normal-form comparison; decorator-name rule",
     ),
     "C11": dict(
-        want=["P4", "P9", "P7b", "P11b", "P13", "M5", "P5b", "L1", "L2", "A3c", "D7", "M9", "A11", "P2c", "P27"],
+        want=["P4", "P9", "P7b", "P11b", "P13", "M5", "P5b", "L1", "L2", "A3c", "D7", "M9", "A11", "P2c", "P27", "S4", "S6", "S7", "Q1"],
         explanation=("Decides two structural necessary conditions: the sort permutation derived from the labels reaches the "
                      "result and count frames on every non-transform path (P4); key names are assigned on every constructing "
                      "path (P9)."
                      ' Also: first-appearance order of the chunk-wise label union (P7b); common index of group-sorted results (P11b); generated names only for None (P13); pointer offsets (M5); selector index space (P5b); the label sort key ranks each level by the inverse permutation, in level order, and is the identity for categorical / already sorted labels (L1); the result is squeezed to 1-D exactly for a single 1-D input and loses its name only when the input had none (L2).'
                      ' std/var forward observed_only (A3c, D7); the merge target dtype comes from the merged partials (M9); no shortcut around the lexicographic sort for several label levels (L1).'
                      ' Facade key order (A11).'
-                     ' Each column is computed with its own counts (P2c); transform index (P27).'),
+                     ' Each column is computed with its own counts (P2c); transform index (P27).'
+                     ' No hidden state / memo tables (S4, S6); sorted flag from evidence (S7); polars dtypes compared by equality (Q1).'),
         not_decided=["actual order, category order, lexicographic order, column independence (value-level)"],
         technique="path rules over _apply_gb_reduction / __init__",
     ),
@@ -184,13 +195,14 @@ _ALL = {
         technique="path pairing; table laws; dtype provenance",
     ),
     "C13": dict(
-        want=["S1", "S2", "S3", "S4", "K2", "M8", "S3b", "H2", "S5"],
+        want=["S1", "S2", "S3", "S4", "K2", "M8", "S3b", "H2", "S5", "S6", "S7", "S8"],
         explanation=("Decides history independence structurally: finite typestate interpretation of the key-representation "
                      "mutator from every state (S1); every consumer of global codes sees global codes (S2); every attribute "
                      "read by a method is initialised on every constructor path (S3); logical attributes are assigned only "
                      "during construction (S4)."
                      ' Also: null-code preservation in the unifier (K2); a sliced key is never paired with the raw mask (M8); the copy constructor takes every attribute from the source (S3b).'
-                     ' No cached property holds a value computed from the codes / pointer tables unless it is in the reviewed table of representation-invariant caches (S5); every attribute the regular constructor sets is copied by the copy constructor (S3b).'),
+                     ' No cached property holds a value computed from the codes / pointer tables unless it is in the reviewed table of representation-invariant caches (S5); every attribute the regular constructor sets is copied by the copy constructor (S3b).'
+                     ' No memo tables on the grouping (S6); the sorted flag only from evidence (S7); chunkedness decided live, not from cached lengths (S8).'),
         not_decided=["equality of outputs across histories as a value relation (implied by the above)"],
         technique="finite abstract interpretation (typestate), definite-assignment, mutation containment",
     ),
@@ -206,11 +218,12 @@ _ALL = {
         technique="link check; path rule; table; forwarding rule",
     ),
     "C15": dict(
-        want=["K4@rowsel", "K1@rowsel", "A1", "R1", "P17", "H1", "K2", "P21"],
+        want=["K4@rowsel", "K1@rowsel", "A1", "R1", "P17", "H1", "K2", "P21", "P25", "S6", "P29", "S4"],
         explanation=("Decides the stated failure modes: per-group row counters are wide enough (K4); null-key rows are never "
                      "selected (K1); selection inputs are validated against the keys (A1)."
                      ' Also: the backward scan of tail is flipped back (R1); the selected columns are not stacked into one array (P17); the occurrence counter of the scans is compared (== n / slot < n) before it is incremented, once per accepted row, and a negative n scans backwards with n := -n - 1 (H1).'
-                     ' The null code survives the unification that head/tail/nth trigger (K2); the selected rows are taken from the values as given, not from the aggregation pre-processor (P21).'),
+                     ' The null code survives the unification that head/tail/nth trigger (K2); the selected rows are taken from the values as given, not from the aggregation pre-processor (P21).'
+                     " Group-sorted layout (P25); no memo tables (S6); selected rows keep the inputs' labels (P29); no hidden state (S4)."),
         not_decided=["that the scan picks the n-th occurrence (seen[k] == n arithmetic)", "index restoration"],
         technique="allocation-width rule; fact walker; must-validate",
     ),
@@ -225,11 +238,12 @@ _ALL = {
         technique="parameter-forwarding over resolved call sites",
     ),
     "C17": dict(
-        want=["A4", "A5", "A6", "A7", "A3f", "A10", "A11", "A12"],
+        want=["A4", "A5", "A6", "A7", "A3f", "A10", "A11", "A12", "A13", "Q2"],
         explanation=("Decides facade<->core agreement structurally: every facade delegation passes the selected value columns "
                      "(A4), binds actuals to parameters of the same role (A5), forwards mask (A3f); iteration is positional "
                      "(A6); key columns are excluded from the values (A7)."
-                     ' The value columns handed to the engine are exactly the selected columns, unfiltered (A10); every `by` entry contributes its key at once, in the order given, `level` keys after them (A11); engine results are relabelled by position, never re-aligned through a pandas constructor with index= (A12).'),
+                     ' The value columns handed to the engine are exactly the selected columns, unfiltered (A10); every `by` entry contributes its key at once, in the order given, `level` keys after them (A11); engine results are relabelled by position, never re-aligned through a pandas constructor with index= (A12).'
+                     " Facade adds no policy: constants equal the engine's defaults, iteration yields rows of the whole object (A13); numeric parameters defaulted by `is None` (Q2)."),
         not_decided=["numerical agreement with pandas"],
         technique="call binding over facade delegations",
     ),
@@ -243,9 +257,11 @@ _ALL = {
         technique="must-pass-through over the call graph; decorator-name rule",
     ),
     "C19": dict(
-        want=["O1", "O2"],
+        want=["O1", "O2", "S6", "O3"],
         explanation=("Decides absence of write-through: no store, in-place call, out=/inplace= or augmented assignment reaches "
-                     "caller-owned or grouping-owned storage (O1); operation results are fresh (O2)."),
+                     "caller-owned or grouping-owned storage (O1); operation results are fresh (O2)."
+                     ' No stores into containers of the grouping (S6).'
+                     ' overwrite_input= never enabled (O3).'),
         not_decided=["freshness of the listed third-party constructors is trusted"],
         technique="interprocedural mod/ref + freshness analysis",
     ),
